@@ -248,7 +248,24 @@ pub fn check(c: &Case) -> Outcome {
     let finite_states = sol.y.iter().all(|y| all_finite(y));
     if c.method != Meth::RK4 {
         if sol.status == Status::Success && !finite_states {
-            return Outcome::viol(format!("{}: Success reported with non-finite states (fault={:?}, patho={:?})", name, instr.fault, c.patho));
+            // finding K5: DOP853's three extra dense-output stages, evaluated after the step has been accepted,
+            // leave the domain of the right-hand side although every accepted state is inside it
+            let key = if c.method == Meth::DOP853 && matches!(instr.fault, Some(Fault::NormAbove { .. })) && (opts.t_eval.is_some() || opts.dense) {
+                let mut o2 = opts.clone();
+                o2.t_eval = None;
+                o2.dense = false;
+                let mut i2 = Instr::new(&rhs, &evs);
+                i2.dir = d;
+                i2.budget = 2_000_000;
+                i2.fault = instr.fault.clone();
+                match solve(&i2, sp.x0, sp.xend, &y0, &o2) {
+                    RunResult::Ok(s2) if s2.status == Status::Success && s2.y.iter().all(|y| all_finite(y)) => "C04-dop853-dense-stage-outside-domain",
+                    _ => "",
+                }
+            } else {
+                ""
+            };
+            return Outcome::viol_key(key, format!("{}: Success reported with non-finite states (fault={:?}, patho={:?})", name, instr.fault, c.patho));
         }
         // a right-hand side that is non-finite from some time strictly inside the interval up to
         // xend cannot be integrated to xend
